@@ -110,10 +110,12 @@ def s_handle_error(eng, fr, ins, st, name, argv):
     cell = st.mem.o[err.obj].cells.get(err.off)
     isnull = eng.is_null(cell[0]) if cell is not None else z3.BoolVal(True)
     c = z3.simplify(z3.Not(isnull))
-    if z3.is_true(c):
-        return ('raise',)
     if z3.is_false(c):
         return None
+    # util::handle_error throws std::invalid_argument for every kernel failure (a caller may catch exactly that)
+    eng.set_thrown(st, '_ZTISt16invalid_argument')
+    if z3.is_true(c):
+        return ('raise',)
     return ('split', c)
 
 
